@@ -203,6 +203,7 @@ pub fn run(ctx: &Ctx) -> Report {
     run_part(ctx, &mut rep, &medium_part(ctx.tier));
     run_part(ctx, &mut rep, &super::sweep::sweep_part("print-large-screen-parameter-sweep", &SYS_SWEEP, &alpha_sweep, ctx.tier));
     run_part(ctx, &mut rep, &super::sweep::mode_part(&SYS_MODES, ctx.tier));
+    super::sweep::mode_number_sweep(ctx, &mut rep, &SYS_MODES);
     charset_table(ctx, &mut rep);
     rep.rule = "lock-step BFS of (real Vt, reference terminal) over single printable chars (ASCII, drawing range, DEL, Latin-1, CJK, space), a 2-char text, REP with counts around the width, DECAWM/IRM toggles, SO/SI, G0/G1 designations, and setup ops (cursor placement incl. last column and rows below the bottom margin, margins, pen, resizes); full grid, scrollback, cursor, hidden modes and the wrap mark of the row left by a wrap are compared after every transition; plus the complete 0x20-0x7f x charset x slot translation table".into();
     rep.assumptions = vec!["readings R1-R7 of DESIGN.md §3.2 (R3: wrap on the last row below the bottom margin does not scroll and does not mark)".into()];
@@ -218,6 +219,9 @@ pub fn replay(ctx: &Ctx, v: &Value) -> bool {
     let tier = if v["tier"] == "thorough" { Tier::Thorough } else { Tier::Quick };
     if v["part"] == "print-lockstep-medium-screen" {
         return replay_part(ctx, &medium_part(tier), v);
+    }
+    if v["part"] == "every-mode-number" {
+        return super::sweep::mode_number_replay(ctx, &SYS_MODES);
     }
     if v["part"] == "mode-list-shapes" {
         return replay_part(ctx, &super::sweep::mode_part(&SYS_MODES, tier), v);
